@@ -861,6 +861,38 @@ func (c *c01CountReader) Read(p []byte) (int, error) {
 	return n, err
 }
 
+// c01SegReader is a caller's reader over a source that arrives in segments (a
+// socket buffer, a ring buffer): Read never crosses a segment boundary, and -
+// like many such types - it has a Len method, which reports what is buffered
+// right now (the rest of the current segment), not what is still to come.
+type c01SegReader struct {
+	b   []byte
+	off int
+	seg int
+	n   int64
+}
+
+func (s *c01SegReader) Len() int {
+	left := s.seg - s.off%s.seg
+	if rem := len(s.b) - s.off; rem < left {
+		left = rem
+	}
+	return left
+}
+
+func (s *c01SegReader) Read(p []byte) (int, error) {
+	if s.off >= len(s.b) {
+		return 0, io.EOF
+	}
+	if l := s.Len(); len(p) > l {
+		p = p[:l]
+	}
+	n := copy(p, s.b[s.off:])
+	s.off += n
+	s.n += int64(n)
+	return n, nil
+}
+
 func c01Dirty() *bt.Tx {
 	tx := &bt.Tx{Version: 77, LockTime: 78}
 	in := &bt.Input{PreviousTxOutIndex: 9, SequenceNumber: 10, PreviousTxSatoshis: 11, UnlockingScript: bscript.NewFromBytes([]byte{1}), PreviousTxScript: bscript.NewFromBytes([]byte{2})}
@@ -926,6 +958,12 @@ var c01Entries = []struct {
 	{"Tx.ReadFrom/counting", false, func(b []byte) c01Parse {
 		r := &c01CountReader{r: bytes.NewReader(b), chunk: 7}
 		tx := c01Dirty() // ReadFrom must not keep anything of the receiver's previous content
+		n, err := tx.ReadFrom(r)
+		return c01Parse{tx, n, r.n, err}
+	}},
+	{"Tx.ReadFrom/segmented", false, func(b []byte) c01Parse {
+		r := &c01SegReader{b: b, seg: []int{4096, 1500, 16384, 65536}[len(b)%4]}
+		tx := &bt.Tx{}
 		n, err := tx.ReadFrom(r)
 		return c01Parse{tx, n, r.n, err}
 	}},
@@ -1049,6 +1087,7 @@ func c01CheckAccepted(c *mon.Ctx, entry string, p c01Parse, cn *c01Canon, raw []
 // c01JudgeShape is the structure -> bytes -> structure clause plus TxID and
 // Clone. It returns true when the structure went through every comparison.
 func c01JudgeShape(c *mon.Ctx, s *gen.Shape, tag string) bool {
+	ownerEditsDecodedEmpties(c)
 	if s.Ambiguous() {
 		c.Count("skipped:ambiguous-shape")
 		return false
@@ -1271,6 +1310,7 @@ func c01JudgeBytes(c *mon.Ctx, in *c01Bytes) {
 	plain := bytes.NewReader(b)
 	oneB := &c01CountReader{r: bytes.NewReader(b), chunk: 1}
 	cnt := &c01CountReader{r: bytes.NewReader(b), chunk: 5}
+	seg := &c01SegReader{b: b, seg: 4096}
 	type seq struct {
 		name string
 		pos  func() int64
@@ -1281,6 +1321,7 @@ func c01JudgeBytes(c *mon.Ctx, in *c01Bytes) {
 		{"Tx.ReadFrom/plain", func() int64 { return int64(len(b) - plain.Len()) }, plain, true},
 		{"Tx.ReadFrom/one-byte", func() int64 { return oneB.n }, oneB, true},
 		{"Tx.ReadFrom/counting", func() int64 { return cnt.n }, cnt, true},
+		{"Tx.ReadFrom/segmented", func() int64 { return seg.n }, seg, true},
 	}
 	off := 0
 	accepted, compared, nonminimal := 0, 0, false
